@@ -10,6 +10,7 @@
 From Apko Require Import Base.Prelude Generated.VersionConsts Generated.C03Version Model.Version Model.Resolver
   Spec.ResolveSpec Proofs.ResolveProofs Proofs.ResolveProofs2 Proofs.ResolveTheorems Proofs.ResolveEnvelope Proofs.ResolveNoPanic.
 From Apko Require Proofs.ResolveClosure2.
+From Apko Require Import Spec.ResolveMultiSpec Proofs.ResolveMulti Proofs.ResolveMulti2 Proofs.ResolveMultiWitness Proofs.ResolveConflicts.
 Open Scope string_scope. Open Scope list_scope. Open Scope nat_scope.
 
 (* the verified validator run on the implementation's results decides the specification *)
@@ -129,3 +130,145 @@ Example c02_closed_partial_example :
   envelope_b U ["a"; "v"] = true /\ resolve U ["a"; "v"] [] = Ok [2; 1; 0] /\
   closed_b U ["a"; "v"] (pkgs_of U [2; 1; 0]) = true.
 Proof. vm_compute. repeat split; reflexivity. Qed.
+
+(* ======================= session 6: the wider envelope ============================================= *)
+(* SEVERAL VERSIONS PER NAME (and several packages of one name per virtual).  Inside the wider envelope
+   Spec.ResolveMultiSpec.menvelope_b — a decidable predicate on (universe, world), nine named clauses
+   (m_clauses) — and for an initial disqualification set that holds the winner of a name only together
+   with all packages of that name (dq0_ok_b; true of [] and of every set in the old envelope), a
+   successful result is CLOSED in the full sense of the Spec, and every member is the WINNER of its
+   name: the package bestPackage returns for an unconstrained request of that name on a fresh resolver.
+   The side condition: no install_if; no dependency on a self-provided name; provided names are not
+   package names; every key of the name map lists packages of one name, the winner of that name among
+   them, and under that key the winner beats every other package listed both ways round (no
+   transitivity of comparePackages is assumed); packages of one name share the origin and, if there
+   are two or more, none is pinned; version operators only on package names; the winner passes every
+   versioned dependency / request on its name with its own version (or no package of that name does);
+   a conflict entry that excludes a winner excludes all packages of its name; no "!name" request.
+   The findings C02-F1, F1b, F1c, F2, F3, F4, F5, F6 each violate a clause (next theorem).
+   PARTIAL in this sense only: several packages of DIFFERENT names under one virtual are outside
+   (no violation is known there; left undone, notes/C02.md). *)
+Theorem c02_closed_multi_version : forall U W dq0 S,
+  menvelope_b U W = true -> dq0_ok_b U dq0 = true -> resolve U W dq0 = Ok S ->
+  Closed U W (pkgs_of U S) /\
+  (forall j, In j S -> is_winner (new_resolver U) j = true) /\
+  (forall w, In w W -> satisfies_dep (pkgs_of U S) w) /\
+  (forall p d, In p (pkgs_of U S) -> In d (p_deps p) -> is_conflict d = false -> satisfies_dep (pkgs_of U S) d).
+Proof. exact closed_multi_lemma. Qed.
+Print Assumptions c02_closed_multi_version.
+(* four versions of c, two sharing the provide v=1, a versioned dependency and a versioned request on c,
+   the cycle c=5.0 -> b -> c, a conflict entry; outside the old envelope *)
+Example c02_closed_multi_version_example :
+  menvelope_b U_multi ["a"; "b"; "c<9"] = true /\ envelope_b U_multi ["a"; "b"; "c<9"] = false /\
+  dq0_ok_b U_multi [] = true /\ resolve U_multi ["a"; "b"; "c<9"] [] = Ok [1; 4; 0] /\
+  closed_b U_multi ["a"; "b"; "c<9"] (pkgs_of U_multi [1; 4; 0]) = true.
+Proof. exact multi_example. Qed.
+
+(* REFUTED: "the envelope minus one clause suffices", for the clauses at positions 0, 3, 4, 5, 6 of
+   m_clauses: on each witness exactly that clause fails and the successful result is not closed.
+   Every witness is a recorded finding replayed on the real code by the harness corpus (F2; F1c; F1
+   through the origin preference and through a pinned sibling; F4; F1, F5, F1b).  The remaining clauses
+   (1, 2, 7, 8) are not known to be necessary: Proofs/ResolveMultiWitness.v says why each is there. *)
+Theorem c02_multi_envelope_minus_clause_refuted :
+  (fails_exactly U_F2 ["w"] 0 /\ refutes U_F2 ["w"] "dep-unsat/install-if-member") /\
+  (fails_exactly U_F1c ["k"] 3 /\ request_refutes U_F1c ["k"] "k" "request-unsat/sibling-of-member") /\
+  (fails_exactly U_F1o ["m"; "n"] 4 /\ refutes U_F1o ["m"; "n"] "dep-unsat/same-name-other-version") /\
+  (fails_exactly U_F1p ["c@edge"; "n"] 4 /\ refutes U_F1p ["c@edge"; "n"] "dep-unsat/same-name-other-version") /\
+  (fails_exactly U_F4 ["b"; "a"] 5 /\ refutes U_F4 ["b"; "a"] "dep-unsat/provider-other-version") /\
+  (fails_exactly U_F1 ["a"; "b"] 6 /\ refutes U_F1 ["a"; "b"] "dep-unsat/same-name-other-version") /\
+  (fails_exactly U_F5 ["d"] 6 /\ refutes U_F5 ["d"] "dep-unsat/absent") /\
+  (fails_exactly U_F1b ["b"; "a"] 6 /\ refutes U_F1b ["b"; "a"] "dep-unsat/same-name-other-version").
+Proof. exact clauses_necessary_lemma. Qed.
+Print Assumptions c02_multi_envelope_minus_clause_refuted.
+
+(* ======================= conflict entries ("!name", "!name<ver") ==================================== *)
+(* "consistent" spelled out for conflict entries (Spec.ResolveMultiSpec.ConflictFree): no member is
+   excluded by a conflict entry of ANOTHER member.  The validator run on the implementation's results: *)
+Theorem c02_conflict_validator_decides : forall S, conflict_check S = [] <-> ConflictFree S.
+Proof. exact conflict_check_spec. Qed.
+Print Assumptions c02_conflict_validator_decides.
+
+(* REFUTED (finding C02-F7; seen from the lock side as C09-F6): a -> b, c; c -> !b; world [a] succeeds
+   with [b c a]: b is chosen for a before c is expanded, c's entry then disqualifies b — which only
+   keeps b from being chosen again.  Inside both envelopes. *)
+Theorem c02_conflict_free_refuted : conflict_refutes U_F7 ["a"] "conflict/member-excluded-by-member".
+Proof. exact conflict_refuted_lemma. Qed.
+Print Assumptions c02_conflict_free_refuted.
+
+(* PARTIAL: conflict entries are honoured FORWARD.  When getPackageDependencies expands package i
+   (not cut as the name of an ancestor), everything one of i's conflict entries excludes — listed under
+   the entry's name and passing filterPackages for it — is disqualified before any dependency of i is
+   chosen: it is not among the packages that call returns and it is in the set handed on.  (Missing:
+   packages chosen BEFORE i was expanded stay — c02_conflict_free_refuted.) *)
+Theorem c02_conflict_entries_forward_partial : forall U fuel i pin parents st st' deps,
+  let R := new_resolver U in
+  get_deps fuel R i pin parents st = Ok (st', deps) -> mem_str (k_name (getp R i)) parents = false ->
+  forall d c j, In d (k_deps (getp R i)) -> d_neg d = Some c -> entry_excludes R c j ->
+    In j (st_dq st') /\ ~ In j deps.
+Proof. intros U fuel i pin parents st st' deps R. exact (conflict_forward_lemma R fuel i pin parents st st' deps (proj1 (new_resolver_wf2 U))). Qed.
+Print Assumptions c02_conflict_entries_forward_partial.
+(* ... and a later walk never returns a disqualified package, and hands the set on *)
+Theorem c02_disqualified_never_chosen : forall U fuel i pin parents st st' deps j,
+  get_deps fuel (new_resolver U) i pin parents st = Ok (st', deps) -> In j (st_dq st) -> ~ In j deps /\ In j (st_dq st').
+Proof. intros U fuel i pin parents st st' deps j. exact (walk_avoids_dq _ fuel i pin parents st st' deps j (proj1 (new_resolver_wf2 U))). Qed.
+Print Assumptions c02_disqualified_never_chosen.
+(* the order in which the entry of U_F7 is honoured: c expanded first, b cannot be had any more *)
+Example c02_conflict_entries_forward_example : resolve U_F7 ["c"; "b"] [] = Err /\ resolve U_F7 ["c"; "a"] [] = Err.
+Proof. exact conflict_honoured_example. Qed.
+
+(* ======================= disqualifyConflicts / conflictingVersion / pick ============================= *)
+(* after package p is chosen, EXACTLY the other packages the name map lists under a name p provides,
+   for which conflictingVersion says yes, join the disqualification set *)
+Theorem c02_disqualify_conflicts_exact : forall R p dq dq', disqualify_conflicts R p dq = Ok dq' ->
+  incl dq dq' /\ (forall j, conflicts_with R p j -> In j dq') /\ (forall z, In z dq' -> In z dq \/ conflicts_with R p z).
+Proof. exact disqualify_conflicts_spec. Qed.
+Print Assumptions c02_disqualify_conflicts_exact.
+(* conflictingVersion's table: a VERSIONED provide conflicts with every other provider, the same
+   version included; an unversioned one with a package of that name unless its version is empty, and
+   with another provider iff the first provide of that name it lists carries a version *)
+Theorem c02_conflicting_version_table : forall c k,
+  (c_version c <> "" -> conflicting_version c k = Some true) /\
+  (c_version c = "" -> k_name k = c_name c -> conflicting_version c k = Some (negb (String.eqb (k_version k) ""))) /\
+  (forall pv, c_version c = "" -> k_name k <> c_name c ->
+     List.find (fun pv => String.eqb (s_name pv) (c_name c)) (k_provs k) = Some pv ->
+     conflicting_version c k = Some (negb (String.eqb (s_version pv) ""))).
+Proof.
+  intros c k. split; [apply conflicting_version_versioned|]. split; [apply conflicting_version_virtual_named|].
+  intros pv. apply conflicting_version_virtual_provider.
+Qed.
+Print Assumptions c02_conflicting_version_table.
+(* together: once p is chosen, every OTHER package named, or providing, a name p provides WITH A
+   VERSION is disqualified *)
+Theorem c02_versioned_provide_excludes_other_providers : forall U p dq dq' pv j,
+  let R := new_resolver U in
+  disqualify_conflicts R p dq = Ok dq' -> In pv (k_provs (getp R p)) -> s_version pv <> "" ->
+  valid R j -> j <> p -> (k_name (getp R j) = s_name pv \/ provides_name (getp R j) (s_name pv)) -> In j dq'.
+Proof. exact disqualify_conflicts_versioned. Qed.
+Print Assumptions c02_versioned_provide_excludes_other_providers.
+Example c02_versioned_provide_example :
+  let U := [wp "libfoo" "1.4.0-r0" [] ["so:libfoo.so.1=1"] []; wp "libfoo" "2.0.0-r0" [] ["so:libfoo.so.1=1"] []] in
+  disqualify_conflicts (new_resolver U) 1 [] = Ok [0].
+Proof. vm_compute. reflexivity. Qed.
+
+(* pick records the package under its name, never overwrites an entry, and refuses a second,
+   different package of a recorded name as well as a package that provides a recorded name *)
+Theorem c02_pick : forall R i sel,
+  (forall sel', pick R i sel = Ok sel' -> alookup (k_name (getp R i)) sel' = Some i) /\
+  (forall sel' n j, pick R i sel = Ok sel' -> alookup n sel = Some j -> alookup n sel' = Some j) /\
+  (forall j, alookup (k_name (getp R i)) sel = Some j -> j <> i -> pick R i sel = Err) /\
+  (forall pv, alookup (k_name (getp R i)) sel = None -> In pv (k_provs (getp R i)) -> ahas (s_name pv) sel = true ->
+     pick R i sel = Err).
+Proof.
+  intros R i sel. split; [intros sel'; apply pick_records|]. split; [intros sel' n j; apply pick_keeps|].
+  split; [intros j; apply pick_refuses | intros pv; apply pick_refuses_provided].
+Qed.
+Print Assumptions c02_pick.
+(* `selected` only grows along the dependency walk *)
+Theorem c02_selected_monotone : forall R fuel i pin parents st st' deps,
+  get_deps fuel R i pin parents st = Ok (st', deps) ->
+  forall n j, alookup n (st_selected st) = Some j -> alookup n (st_selected st') = Some j.
+Proof. exact get_deps_sel_mono. Qed.
+Print Assumptions c02_selected_monotone.
+Example c02_pick_example :
+  let R := new_resolver U_F1 in pick R 3 [("c", 4)] = Err /\ pick R 4 [("c", 4)] = Ok [("c", 4)].
+Proof. vm_compute. split; reflexivity. Qed.
